@@ -58,6 +58,13 @@ def run(c, chk, alloc_failure=False):
             nall += 1
             for fd in ow.analyse_path(p, f.name):
                 report_finding(c, chk, f, fd, seen, p)
+            for e, fld in overwrite_findings(p):
+                key = 'overwrite:%s:%s' % (f.name, fld)
+                if key not in seen:
+                    seen.add(key)
+                    from ..failpaths import cond_text
+                    chk.fail('R7.1', key, c.where(e.ins), '%s(): overwrites the owner field %s (%s) without releasing, saving or testing its old value'
+                             % (f.name, fld, sym.render(e.addr)), witness=['path condition: ' + cond_text(p, 6)] + [repr(x) for x in p.events[-8:]])
         npaths += nall
         allocs = sum(1 for x in f.calls() if (x.callee_name() in ow.ALLOCATORS or x.callee_name() in ow.FRESH_RETURNING or x.callee_name() in ow.SHALLOW_RELEASERS or x.callee_name() in ow.DEEP_RELEASERS))
         if not seen and allocs:
@@ -67,11 +74,69 @@ def run(c, chk, alloc_failure=False):
     chk.floor('R7.1 functions analysed', nfun, 100)
     chk.floor('R7.1 paths analysed', npaths, 2000)
 
+    lexer_actions_ownership(c, chk)
     parser_ownership(c, chk)
     searchpath_rule(c, chk, ex)
     aggregate_copy_rule(c, chk, ex)
     freecb_rule(c, chk, ex)
     include_rule(c, chk, ex)
+
+
+OWNER_FIELDS = {('cfg_t', 'name'), ('cfg_t', 'title'), ('cfg_t', 'filename'), ('cfg_t', 'comment'), ('cfg_t', 'opts'),
+                ('cfg_opt_t', 'name'), ('cfg_opt_t', 'comment'), ('cfg_opt_t', 'values'), ('cfg_opt_t', 'subopts'),
+                ('cfg_defvalue_t', 'parsed'), ('cfg_defvalue_t', 'string'), ('cfg_value_t', 'string'), ('cfg_value_t', 'section'),
+                ('cfg_searchpath_t', 'dir'), ('cfg_searchpath_t', 'next')}
+FRESH = ('calloc', 'malloc', 'realloc', 'reallocarray', 'strdup', 'strndup')
+
+
+def overwrite_findings(path):
+    """stores that overwrite an owner field of a pre-existing object without releasing, saving or
+    null-testing the old value  ->  [(event, field description)]"""
+    out = []
+    nf = {sym.norm(v): isnull for v, isnull in ow.null_facts(path).items()}
+    evs = path.events
+    # user pointers (CFGT_PTR) share the slot with strings; their release goes through freecb (R7.5)
+    is_ptr = any(t and pm.describe_cond(cn).endswith('->type eq PTR') for cn, t, _ in path.assume)
+    for i, e in enumerate(evs):
+        if e.kind != 'store' or e.addr[0] != 'fld' or (e.addr[2], e.addr[3]) not in OWNER_FIELDS:
+            continue
+        root = sym.root_of(e.addr)
+        if root[0] == 'alloca' or (root[0] == 'call' and root[1] in FRESH):
+            continue
+        if root[0] == 'call' and root[1] in ('cfg_addval',):
+            continue          # a freshly appended, zeroed slot
+        if is_ptr and e.addr[3] == 'string':
+            continue
+        old = sym.norm(('ld', e.addr))
+        if nf.get(old) is True:
+            continue
+        if e.val == sym.C0 or sym.norm(e.val) == old:
+            # clearing: fine if the old value was released / saved, checked below; a plain clear of a
+            # borrowed pointer is also fine
+            pass
+        ok = False
+        for j, e2 in enumerate(evs):
+            if e2.kind == 'call':
+                if e2.name in ow.SHALLOW_RELEASERS or e2.name in ow.DEEP_RELEASERS or e2.name in ('realloc', 'reallocarray'):
+                    if e2.args and sym.norm(e2.args[0]) == old:
+                        ok = True
+                if e2.name in ow.CONTENT_RELEASERS:
+                    k, flds = ow.CONTENT_RELEASERS[e2.name]
+                    if k < len(e2.args) and e.addr[3] in flds and sym.norm(e2.args[k]) == sym.norm(e.addr[1]):
+                        ok = True
+                if e2.name.startswith('llvm.memcpy') and j < i and len(e2.args) > 1 and sym.norm(e2.args[1]) == sym.norm(e.addr[1]):
+                    ok = True      # the whole record was saved by value before
+            elif e2.kind == 'store' and j != i and sym.norm(e2.val) == old:
+                ok = True          # old value saved somewhere else
+            elif e2.kind == 'ret' and e2.val is not None and sym.norm(e2.val) == old:
+                ok = True
+        if e.val == sym.C0 and not ok:
+            # clearing without release is a leak only if something owned was there; accept when the
+            # function releases the container's content elsewhere on this path (cfg_free_value style)
+            ok = any(x.kind == 'call' and (x.name in ow.SHALLOW_RELEASERS or x.name in ow.DEEP_RELEASERS) for x in evs[:i])
+        if not ok:
+            out.append((e, '%s.%s' % (e.addr[2], e.addr[3])))
+    return out
 
 
 def report_finding(c, chk, f, fd, seen, path, rule=None):
@@ -86,6 +151,28 @@ def report_finding(c, chk, f, fd, seen, path, rule=None):
     from ..failpaths import cond_text
     chk.fail(rule, key, c.where(fd.ev.ins) if fd.ev is not None else c.where(f), '%s(): %s' % (f.name, det),
              witness=['path condition: ' + cond_text(path, 6)] + [repr(e) for e in path.events[-8:]])
+
+
+def lexer_actions_ownership(c, chk):
+    lex = c.lex
+    seen = set()
+    n = 0
+    items = [(lex.rule_name(r), aps) for r, aps in sorted(lex.actions.items()) if r != lex.dfa.default_rule]
+    items += [('<%s><<EOF>>' % scn, aps) for scn, aps in sorted(lex.eof_actions.items())]
+    for name, aps in items:
+        for ap in aps:
+            n += 1
+            for fd in ow.analyse_path(ap.path, 'cfg_yylex'):
+                report_finding(c, chk, lex.fn, fd, seen, ap.path)
+            for e, fld in overwrite_findings(ap.path):
+                key = 'overwrite:cfg_yylex:%s:%s' % (name.split(' ')[-1], fld)
+                if key not in seen:
+                    seen.add(key)
+                    chk.fail('R7.1', key, c.where(e.ins), 'scanner action %s overwrites the owner field %s without releasing or saving its old value' % (name, fld),
+                             witness=[ap.describe()])
+    if not seen:
+        chk.ok('R7.1', 'scanner actions: %d action paths' % n, 'nothing acquired is dropped; owner fields are released or saved before being overwritten', sample=True)
+    chk.floor('R7.1 scanner action paths', n, 60)
 
 
 # ---- the parser loop --------------------------------------------------------------------
